@@ -31,6 +31,24 @@ fn main() {
         let v = serde_json::json!({"signature": "", "replay": {"engine": "duo", "scenario": scn, "plan": plan, "abort": "None"}});
         std::process::exit(duo::replay(&v));
     }
+    if args[0] == "solo-debug" {
+        let name = args.get(1).cloned().unwrap_or_default();
+        let hist: Vec<u8> = serde_json::from_str(args.get(2).map(|s| s.as_str()).unwrap_or("[]")).expect("history json");
+        let d = props::solo_drivers::all_drivers(Tier::Quick).into_iter().find(|d| d.name == name).unwrap_or_else(|| {
+            eprintln!("unknown driver; known: {:?}", props::solo_drivers::all_drivers(Tier::Quick).iter().map(|d| d.name.clone()).collect::<Vec<_>>());
+            std::process::exit(2)
+        });
+        let v = serde_json::json!({"signature": "", "replay": solo::bfs::replay_json(&d, &hist)});
+        let code = solo::bfs::replay(&v);
+        if let Some((_, Some((w, m)))) = solo::bfs::execute(&d, &hist, true) {
+            let mut fp = w.fingerprint();
+            let n = fp.len();
+            m.digest(&w, &mut fp);
+            println!("FP-CONN+HARNESS {:?}", &fp[..n]);
+            println!("FP-MONITORS {:?}", &fp[n..]);
+        }
+        std::process::exit(code);
+    }
     let prop = args[0].clone();
     let mut tier = match std::env::var("VERIF_TIER").ok().as_deref() {
         Some("thorough") => Tier::Thorough,
